@@ -9,7 +9,6 @@ NOT_APPLICABLE = {
     "C16": "Reflexivity/union/inheritance laws quantify over generated types; the hand-mirrored fast path vs pairwise rules is a semantic equivalence, not a shape property.",
     "C17": "Render-then-reparse equality over generated types; precedence bugs are value-level.",
     "C18": "Correct substitution for every argument type is a semantic equation over instantiation.",
-    "C22": "Offset<->position round-trip and clamping are integer arithmetic over runtime line tables (needs an interval/relational proof or a solver, i.e. another technique family); the crash consequences for handlers are covered by C25.",
     "C34": "Path<->URI round-trip over all strings is value-level behaviour of url/percent-decoding.",
     "C36": "Exit status and report contents 'exactly equal' the filtered diagnostics: value-level; the only shape facts would restate the 60-line function and miss the realistic mutants.",
 }
@@ -308,3 +307,12 @@ PROPS["C37"] = dict(
          "explicit panics are discharged by audited invariants.",
     note="NOT decided: that produced ranges lie inside the description, and the ~70 indexing/slicing sites over line arrays "
          "(value-level line arithmetic; not audited). Trusted: rustc MIR (pre-drop-elaboration Drop terminators), emmyfacts.")
+
+PROPS["C22"] = dict(
+    module="c22", func="run", level="other", crates=["emmylua_parser"],
+    technique="CFG dominance of the line lookup + provenance of the column clamp bound (whole text vs the line's content) + bounds-fact audit of LineIndex",
+    text="Decides three structural clauses of position conversion: a position on a missing line converts to nothing (the line-start lookup "
+         "dominates everything else and is itself bounds-tested), a column past the end of its line is clamped by that line's own content "
+         "(not by the length of the whole text or an open-ended tail of it), and no index/slice of LineIndex can go out of range.",
+    note="The round trip offset -> position -> offset and the exact clamped value are integer arithmetic over runtime line tables and are "
+         "not decided (that would need an interval/relational proof, another technique family). Trusted: rustc MIR, emmyfacts, lib/bounds.py.")
